@@ -185,8 +185,16 @@ int MPI_Type_dup(MPI_Datatype old, MPI_Datatype *newt) { *newt = new_type(type_s
 int MPI_Type_contiguous(int count, MPI_Datatype old, MPI_Datatype *newt) { *newt = new_type((long long)count * type_size(old)); return MPI_SUCCESS; }
 int MPI_Type_vector(int count, int bl, int stride, MPI_Datatype old, MPI_Datatype *newt) { *newt = new_type((long long)count * bl * type_size(old)); return MPI_SUCCESS; }
 int MPI_Type_create_hvector(int count, int bl, MPI_Aint stride, MPI_Datatype old, MPI_Datatype *newt) { *newt = new_type((long long)count * bl * type_size(old)); return MPI_SUCCESS; }
+#ifdef MPI_MODEL_RECORD_HINDEXED
+int g_hidx_calls, g_hidx_count; long long g_hidx_bl[MPI_MODEL_RECORD_HINDEXED], g_hidx_disp[MPI_MODEL_RECORD_HINDEXED];
+#endif
 int MPI_Type_create_hindexed(int count, const int bls[], const MPI_Aint disps[], MPI_Datatype old, MPI_Datatype *newt)
 {
+#ifdef MPI_MODEL_RECORD_HINDEXED
+    /* harnesses that state the file view: the block list of the (last) hindexed type */
+    g_hidx_calls++; g_hidx_count = count;
+    for (int i = 0; i < MPI_MODEL_RECORD_HINDEXED; i++) if (i < count) { g_hidx_bl[i] = bls[i]; g_hidx_disp[i] = disps[i]; }
+#endif
     *newt = new_type(nondet_ll());
     return MPI_SUCCESS;
 }
